@@ -12,6 +12,9 @@ package main
 import (
 	"encoding/json"
 	"fmt"
+	"os"
+	"path/filepath"
+	"regexp"
 	"strings"
 
 	"github.com/janelia-flyem/dvid/datatype/common/labels"
@@ -58,6 +61,37 @@ var siteYields = map[string][]string{
 	"neuronjson.storeAndUpdate": {"neuronjson.storeAndUpdate.read", "neuronjson.storeAndUpdate.store"},
 	"datastore.newVersion":      {"datastore.newVersion.append"},
 	"datastore.merge":           {},
+}
+
+// loadSiteYields replaces the built-in lists by the yield points the translator found in the tree
+// under test (coq/Gen/Locks.v, regenerated before every run), so that the scheduler stops exactly
+// where the model's requests are cut.
+func loadSiteYields() {
+	for _, p := range []string{filepath.Join("..", "coq", "Gen", "Locks.v"), filepath.Join("coq", "Gen", "Locks.v")} {
+		b, err := os.ReadFile(p)
+		if err != nil {
+			continue
+		}
+		siteRe := regexp.MustCompile(`mkSite "([^"]+)"`)
+		yieldRe := regexp.MustCompile(`GYield "([^"]+)"`)
+		cur := ""
+		found := map[string][]string{}
+		for _, line := range strings.Split(string(b), "\n") {
+			if m := siteRe.FindStringSubmatch(line); m != nil && strings.HasPrefix(line, "Definition site_") {
+				cur = m[1]
+				found[cur] = []string{}
+			}
+			if m := yieldRe.FindStringSubmatch(line); m != nil && cur != "" && strings.HasPrefix(strings.TrimSpace(line), "GYield") {
+				found[cur] = append(found[cur], m[1])
+			}
+		}
+		for site, ys := range found {
+			if _, ok := siteYields[site]; ok {
+				siteYields[site] = ys
+			}
+		}
+		return
+	}
 }
 
 var kindSite = map[string]string{
